@@ -41,6 +41,9 @@ TNoLengthPoison == Client => ((R.outcome = "failed" /\ ~R.known) => R.blen # 1)
 TServerOnlyVerified == Server => /\ \A i \in DOMAIN R.blobs_sent :
                                       R.blobs_sent[i].named_known_verified /\ R.blobs_sent[i].length_right /\ R.blobs_sent[i].payload_right
                                  /\ ~R.stray /\ ~R.sent_for_unheld
+\* every well-formed request for a held blob on the connection is answered with that blob (several requests per connection,
+\* however the request bytes were fragmented), up to the first malformed request
+TServerServesAll == Server => R.served >= R.expected_serves
 \* malformed or oversized requests close the connection at once; any connection is closed within idle + transfer timeout
 TServerClosesGarbage == Server => /\ R.first_garbage_closed
                                   /\ R.closed_at_ms >= 0 /\ R.closed_at_ms <= R.idle_limit_ms + 1000
